@@ -29,6 +29,66 @@ type c11tGen struct {
 	Also500     bool   `json:"failure_codes_include_500"`
 	MaxIdle     int    `json:"max_idle_conns"`
 	Extra       int    `json:"extra_filters"` // 1 cors, 2 validator+requestadaptor, 4 ratelimiter
+	// options of the RateLimiter filter 'rl' (present when Extra&4 != 0): policies 'strict'
+	// (RLStrict permits per hour, no waiting) and 'loose' are always declared; the one URL rule
+	// (prefix /limited) names one of them or relies on defaultPolicyRef
+	RLDefault string `json:"ratelimiter_default_policy_ref"`
+	RLRuleRef string `json:"ratelimiter_url_policy_ref"`
+	RLStrict  int    `json:"ratelimiter_strict_permits"`
+}
+
+func (g c11tGen) rlPresent() bool { return g.Extra&4 != 0 }
+
+// rlEffective is the policy the spec binds to the URL rule.
+func (g c11tGen) rlEffective() string {
+	if g.RLRuleRef != "" {
+		return g.RLRuleRef
+	}
+	return g.RLDefault
+}
+
+// rlPermits is the number of /limited requests the spec lets through per (one hour) period.
+func (g c11tGen) rlPermits() int {
+	if g.rlEffective() == "strict" {
+		return g.RLStrict
+	}
+	return 1000000
+}
+
+// c11tRLMayShare: the update may legitimately keep the limiter state of the previous generation
+// (same filter, same effective policy with the same body): the permits already used count.
+func c11tRLMayShare(prev, g c11tGen) bool {
+	return prev.rlPresent() && g.rlPresent() && prev.rlEffective() == g.rlEffective() && (g.rlEffective() == "loose" || prev.RLStrict == g.RLStrict)
+}
+
+func c11tDrawRL(rng *rand.Rand, g *c11tGen, prev *c11tGen) {
+	g.RLDefault = []string{"strict", "loose"}[rng.Intn(2)]
+	g.RLRuleRef = []string{"", "", "strict", "loose"}[rng.Intn(4)]
+	g.RLStrict = 1 + rng.Intn(3)
+	if prev != nil && rng.Intn(3) != 0 {
+		// most updates change one thing at a time
+		g.RLDefault, g.RLRuleRef, g.RLStrict = prev.RLDefault, prev.RLRuleRef, prev.RLStrict
+		c11tRLChangeOne(rng.Intn(4), g)
+	}
+}
+
+// c11tRLChangeOne changes exactly one option of the RateLimiter spec.
+func c11tRLChangeOne(kind int, g *c11tGen) {
+	other := map[string]string{"strict": "loose", "loose": "strict"}
+	switch kind {
+	case 0: // only defaultPolicyRef
+		g.RLDefault = other[g.RLDefault]
+	case 1: // only the URL rule's policyRef: explicit <-> other explicit, or default -> explicit other
+		g.RLRuleRef = other[g.rlEffective()]
+	case 2: // only the body of the strict policy
+		g.RLStrict = g.RLStrict%3 + 1
+	case 3: // the URL rule stops/starts naming the policy it gets anyway
+		if g.RLRuleRef == "" {
+			g.RLRuleRef = g.RLDefault
+		} else {
+			g.RLDefault, g.RLRuleRef = g.RLRuleRef, ""
+		}
+	}
 }
 
 func c11tDrawGen(rng *rand.Rand, k int, prev *c11tGen) c11tGen {
@@ -42,6 +102,7 @@ func c11tDrawGen(rng *rand.Rand, k int, prev *c11tGen) c11tGen {
 		}
 		g.Inherited = g.ProxyName == prev.ProxyName
 	}
+	c11tDrawRL(rng, &g, prev)
 	g.RetryName = []string{"retry-a", "retry-b"}[rng.Intn(2)]
 	g.Retry = []int{0, 2, 3, 4}[rng.Intn(4)]
 	g.Canary = rng.Intn(2) == 0
@@ -75,7 +136,10 @@ func (g c11tGen) yaml(name string) string {
 		b.WriteString("- name: cors\n  kind: CORSAdaptor\n  allowedOrigins: [\"*\"]\n")
 	}
 	if g.Extra&4 != 0 {
-		b.WriteString("- name: rl\n  kind: RateLimiter\n  policies:\n  - name: p\n    timeoutDuration: 0ms\n    limitRefreshPeriod: 10ms\n    limitForPeriod: 1000000\n  defaultPolicyRef: p\n  urls:\n  - url:\n      prefix: /\n    policyRef: p\n")
+		fmt.Fprintf(&b, "- name: rl\n  kind: RateLimiter\n  policies:\n  - name: strict\n    timeoutDuration: 0ms\n    limitRefreshPeriod: 1h\n    limitForPeriod: %d\n  - name: loose\n    timeoutDuration: 0ms\n    limitRefreshPeriod: 1h\n    limitForPeriod: 1000000\n  defaultPolicyRef: %s\n  urls:\n  - url:\n      prefix: /limited\n", g.RLStrict, g.RLDefault)
+		if g.RLRuleRef != "" {
+			fmt.Fprintf(&b, "    policyRef: %s\n", g.RLRuleRef)
+		}
 	}
 	if g.Extra&2 != 0 {
 		b.WriteString("- name: val\n  kind: Validator\n  headers:\n    X-Client:\n      values: [\"verif\"]\n- name: reqad\n  kind: RequestAdaptor\n  header:\n    set:\n      X-Seen: \"yes\"\n")
@@ -109,6 +173,7 @@ type c11tProbe struct {
 	Canary    bool   `json:"to_candidate_pool"`
 	FailFirst int    `json:"backend_fails_first_n_attempts"`
 	FailCode  int    `json:"with_status"`
+	Limited   bool   `json:"to_rate_limited_url"`
 }
 
 // c11tProbes draws the probe sequence for a generation; the class names what the spec of that
@@ -154,6 +219,15 @@ func c11tProbes(rng *rand.Rand, g c11tGen, last bool) []c11tProbe {
 		ps = append(ps, c11tProbe{Class: "breaker:healthy-request-after-window-of-failed-calls"},
 			c11tProbe{Class: "breaker:healthy-request-after-window-of-failed-calls"})
 	}
+	if g.rlPresent() {
+		// healthy requests to the rate-limited URL, two more than the strictest policy permits.
+		// They come last: a kept limiter may reject what the fresh twin's serves, and a request
+		// that only one of the two forwards would make the breakers of the two differ for
+		// whatever followed.
+		for n := 0; n < 5; n++ {
+			ps = append(ps, c11tProbe{Class: "rate-limited-url:" + g.rlEffective() + "-policy", Limited: true})
+		}
+	}
 	return ps
 }
 
@@ -166,6 +240,9 @@ func c11tSend(h context.Handler, id string, p c11tProbe) c11Obs {
 	if p.Canary {
 		hdr["X-Canary"] = "1"
 	}
+	if p.Limited {
+		return c11DoReq(h, "GET", "/limited/x", "", hdr)
+	}
 	return c11Do(h, hdr)
 }
 
@@ -176,7 +253,7 @@ func c11tSend(h context.Handler, id string, p c11tProbe) c11Obs {
 func TestVerif_C11_TwinGenerations(t *testing.T) {
 	r := kit.Start(t, "C11")
 	defer r.Finish()
-	r.Rule("rig 2b (twin generations): a real TrafficController holds pipeline 'live' which is taken through a chain of 3-5 generations by ApplyPipelineForSpec/UpdatePipelineForSpec; each generation is drawn anew: RequestAdaptor + ResponseAdaptor carrying k, optional CORSAdaptor/Validator/RequestAdaptor/RateLimiter that come and go, a Proxy whose filter name is kept (Inherit) or changed by the update (Init inside an updated pipeline), main pool and optional header-selected candidate pool to scripted loopback backends, per pool a Retry policy (none/2/3/4 attempts, policy name changes), optional CircuitBreaker (window 2-4), failureCodes [503] or [500,503]; after every update a twin pipeline is freshly created from the same spec in another namespace, both receive the same probe sequence (healthy backend; backend failing the first 1-4 attempts of the request with 503/500, to main and candidate pool; in the last generation a full breaker window of failing requests followed by healthy ones) and the twin is deleted; oracle: per probe the updated generation's (status, body, X-Gen header, pool, filter result, number of attempts the backend saw) equal the fresh twin's, a healthy probe carries generation k in body and header, 'live' stays available when the twin is created/deleted; distinct = (probe class, proxy inherited/new, retry attempts, breaker, status, attempts)")
+	r.Rule("rig 2b (twin generations): a real TrafficController holds pipeline 'live' which is taken through a chain of 3-5 generations by ApplyPipelineForSpec/UpdatePipelineForSpec; each generation is drawn anew: RequestAdaptor + ResponseAdaptor carrying k, optional CORSAdaptor/Validator/RequestAdaptor/RateLimiter that come and go (the RateLimiter declares a strict policy of 1-3 permits per hour and a loose one, its URL rule on /limited names one or relies on defaultPolicyRef; every chain keeps it across one update that changes exactly one of defaultPolicyRef / the rule's policyRef / the policy body / which of the two names the policy), a Proxy whose filter name is kept (Inherit) or changed by the update (Init inside an updated pipeline), main pool and optional header-selected candidate pool to scripted loopback backends, per pool a Retry policy (none/2/3/4 attempts, policy name changes), optional CircuitBreaker (window 2-4), failureCodes [503] or [500,503]; after every update a twin pipeline is freshly created from the same spec in another namespace, both receive the same probe sequence (healthy backend; backend failing the first 1-4 attempts of the request with 503/500, to main and candidate pool; in the last generation a full breaker window of failing requests followed by healthy ones; last, five healthy requests to the rate-limited URL) and the twin is deleted; oracle: per probe the updated generation's (status, body, X-Gen header, pool, filter result, number of attempts the backend saw) equal the fresh twin's (for the rate-limited URL only when the update changed the effective policy or its body, i.e. the limiter cannot have been kept; otherwise a rejection by the updated generation is accepted, it must let through at most the permitted number and none after a rejection, and what it lets through is compared like any other probe), a healthy probe carries generation k in body and header, 'live' stays available when the twin is created/deleted; distinct = (probe class, proxy inherited/new, retry attempts, breaker, status, attempts)")
 	r.Assume("a Proxy generation starts with empty resilience state (Proxy.Inherit builds new pools and breakers exactly like Init), so the probe sequence sent to the updated generation and to its fresh twin meets the same circuit-breaker window; breaker probes are only sent in the last generation of a chain and open-state wait is 1h (no wall-clock dependence)")
 	super := supervisor.NewDefaultMock()
 	for i := 0; i < r.N(16, 600); i++ {
@@ -201,6 +278,15 @@ func TestVerif_C11_TwinGenerations(t *testing.T) {
 		if gens[ngen-1].CBWindow == 0 {
 			gens[ngen-1].CBWindow, gens[ngen-1].CBThreshold = 2+rng.Intn(3), 100
 		}
+		// ... and a RateLimiter kept across an update that changes exactly one of its options
+		// (kind i%4: defaultPolicyRef / the rule's policyRef / the policy body / who names the policy)
+		gens[1].Extra |= 4
+		gens[2].Extra |= 4
+		if i%4 == 0 {
+			gens[1].RLRuleRef = ""
+		}
+		gens[2].RLDefault, gens[2].RLRuleRef, gens[2].RLStrict = gens[1].RLDefault, gens[1].RLRuleRef, gens[1].RLStrict
+		c11tRLChangeOne(i%4, &gens[2])
 		useUpdate := rng.Intn(2) == 0
 		r.Case(i, map[string]interface{}{"generations": gens, "useUpdate": useUpdate})
 		tc := c11NewTC(super)
@@ -241,6 +327,7 @@ func TestVerif_C11_TwinGenerations(t *testing.T) {
 				r.Count("twin_generations_with_new_proxy_in_updated_pipeline", 1)
 			}
 			probes := c11tProbes(rng, g, k == len(gens)-1)
+			rlMayShare, rlPassed, rlRejected := c11tRLMayShare(gens[k-1], g), 0, false
 			for pi, p := range probes {
 				live, ok1 := tc.namespaces[liveNS].GetHandler("live")
 				twin, ok2 := tc.namespaces[twinNS].GetHandler("live")
@@ -265,6 +352,39 @@ func TestVerif_C11_TwinGenerations(t *testing.T) {
 				}
 				if strings.HasPrefix(p.Class, "breaker:healthy") && of.Attempts == 0 && of.Status == 503 {
 					r.Count("twin_fresh_breaker_short_circuited", 1)
+				}
+				if p.Limited {
+					r.Count("twin_rate_limited_url_probes", 1)
+					if of.Status == 429 {
+						r.Count("twin_fresh_rate_limited", 1)
+					}
+					if gens[k-1].rlPresent() && !rlMayShare {
+						r.Count("twin_ratelimiter_policy_changed_on_kept_filter", 1)
+					}
+				}
+				if p.Limited && rlMayShare {
+					// the limiter state may have been kept: permits used by earlier generations
+					// count, so a rejection the fresh twin does not show is accepted; what the
+					// spec of generation k says about a period is judged, and a request the
+					// kept limiter lets through is compared with the twin's like any other
+					if ol.Status == 429 {
+						rlRejected = true
+						r.Cover(fmt.Sprintf("twin/%s/limiter-may-be-kept/rejected", p.Class))
+						continue
+					}
+					bad := ""
+					switch {
+					case rlRejected:
+						bad = "passed-after-rejection-within-the-period"
+					case rlPassed >= g.rlPermits():
+						bad = "more-passed-than-the-policy-permits"
+					}
+					rlPassed++
+					if bad != "" {
+						r.Violation("pipeline-twin:rate-limited-url:kept-limiter:"+bad+":"+g.rlEffective()+"-policy",
+							map[string]interface{}{"generation": g, "previous_generation": gens[k-1], "probe": p, "updated": ol, "fresh": of, "spec": g.yaml("live")})
+						continue
+					}
 				}
 				field := ""
 				switch {
@@ -318,4 +438,6 @@ func TestVerif_C11_TwinGenerations(t *testing.T) {
 	r.Require("twin_fresh_request_saved_by_retry_policy", 1)
 	r.Require("twin_retry_probe_on_inherited_proxy", 1)
 	r.Require("twin_fresh_breaker_short_circuited", 1)
+	r.Require("twin_fresh_rate_limited", 1)
+	r.Require("twin_ratelimiter_policy_changed_on_kept_filter", 1)
 }
